@@ -372,6 +372,37 @@ func hasTimerCase(c *Ctx, s *ssa.Select) bool {
 	return false
 }
 
+// sourceReadWrapper: g is a module function that reads (Source.Read) from a packets.Source it received as a parameter, directly
+// or by handing that parameter to another such function; returns the index of that parameter among the call arguments, or -1.
+func sourceReadWrapper(c *Ctx, g *ssa.Function, depth int) int {
+	if g == nil || !core.InModule(g) || len(g.Blocks) == 0 || depth > 3 {
+		return -1
+	}
+	for i, pa := range g.Params {
+		if !isNamed(pa.Type(), core.ModulePath+"/packets", "Source") {
+			continue
+		}
+		for _, b := range g.Blocks {
+			for _, in := range b.Instrs {
+				call, ok := in.(*ssa.Call)
+				if !ok {
+					continue
+				}
+				cc := call.Common()
+				if cc.IsInvoke() && cc.Value == ssa.Value(pa) && cc.Method.Name() == "Read" {
+					return i
+				}
+				if h := cc.StaticCallee(); h != nil && h != g {
+					if k := sourceReadWrapper(c, h, depth+1); k >= 0 && k < len(cc.Args) && cc.Args[k] == ssa.Value(pa) {
+						return i
+					}
+				}
+			}
+		}
+	}
+	return -1
+}
+
 // blockingCall classifies a call; kind == "" when it is not a blocking primitive.
 func blockingCall(c *Ctx, f *ssa.Function, call *ssa.Call) (kind string, ok bool, why string) {
 	cc := call.Common()
@@ -380,13 +411,15 @@ func blockingCall(c *Ctx, f *ssa.Function, call *ssa.Call) (kind string, ok bool
 		return k, true, "reviewed exception: " + blockingExceptions[k]
 	}
 	switch {
-	case name == "packets.ReadAndParse" || name == "iface:packets.Source.Read":
-		if f.Name() == "ReadAndParse" {
-			return "", false, "" // the wrapper itself: governed at its call sites
-		}
-		src := cc.Args[0]
+	case name == "iface:packets.Source.Read" || sourceReadWrapper(c, cc.StaticCallee(), 0) >= 0:
+		var src ssa.Value
 		if cc.IsInvoke() {
 			src = cc.Value
+		} else {
+			src = cc.Args[sourceReadWrapper(c, cc.StaticCallee(), 0)]
+		}
+		if pa, isParam := src.(*ssa.Parameter); isParam && pa.Parent() == f {
+			return "", false, "" // f is itself a wrapper around the read: governed at its call sites
 		}
 		okd, w := readDeadline(c, f, call, src)
 		return "capture-read", okd, w
